@@ -33,6 +33,9 @@ pub struct Cfg {
     pub cache_cap: Option<usize>,
     pub read_buf: Option<usize>,
     pub truncate_incomplete: Option<bool>,
+    /// the journal starts at this global offset (a chunk file holding only a
+    /// default state snapshot is placed there before the first open)
+    pub start_offset: Option<u64>,
 }
 
 impl Cfg {
@@ -55,6 +58,10 @@ impl Cfg {
     }
     pub fn with_read_buf(mut self, n: Option<usize>) -> Self {
         self.read_buf = n;
+        self
+    }
+    pub fn starting_at(mut self, offset: u64) -> Self {
+        self.start_offset = Some(offset);
         self
     }
     pub fn to_config(&self, dir: &str) -> Arc<Config> {
@@ -80,7 +87,7 @@ impl Cfg {
             None => "-".to_string(),
         };
         format!(
-            "rec={} size={} citems={} ccap={} rbuf={}{}",
+            "rec={} size={} citems={} ccap={} rbuf={}{}{}",
             f(self.max_records),
             f(self.max_size),
             f(self.cache_items),
@@ -89,6 +96,10 @@ impl Cfg {
             match self.truncate_incomplete {
                 Some(false) => " notrunc",
                 _ => "",
+            },
+            match self.start_offset {
+                Some(x) => format!(" start@{}", x),
+                None => String::new(),
             }
         )
     }
@@ -234,6 +245,12 @@ impl Sut {
     }
 
     pub fn open_in(dir: ScratchDir, cfg: Cfg) -> Result<Self, String> {
+        if let Some(x) = cfg.start_offset {
+            if list_files(&dir.path).is_empty() {
+                let head = enc::encode(&MRec::State(MState::default()));
+                std::fs::write(format!("{}/{}", dir.path, chunk_name(x)), head).map_err(|e| e.to_string())?;
+            }
+        }
         let rl = open_store(&dir.path, &cfg)?;
         Ok(Sut {
             dir,
